@@ -401,9 +401,11 @@ theorem specRun_disk {sch : Levels} {db db' : Engine.DB} {sdb sdb' : Spec.SDB} {
 
 /-! ### the redo of the log -/
 
-/-- what `replayOne` does first: the LSN counter is raised to the record's LSN -/
+/-- what `replayOne` does first: the LSN counter is raised to the record's LSN (and, for an INSERT
+record, the row-id counter to the record's key) -/
 def lsnRaised (r : WalRec) (s : Store) : Store :=
-  { s with hdr := { s.hdr with nextLSN := max s.hdr.nextLSN r.lsn } }
+  { s with hdr := { s.hdr with nextLSN := max s.hdr.nextLSN r.lsn,
+                               lastKey := if r.op == c_OpInsert then max s.hdr.lastKey r.cell else s.hdr.lastKey } }
 
 /-- the key counter is not the data file -/
 theorem DiskSame.lastKey {a s : Store} (h : DiskSame a s) (k : Nat) :
